@@ -7,6 +7,7 @@ import (
 
 	ouroboros "github.com/blinklabs-io/gouroboros"
 	"github.com/blinklabs-io/gouroboros/ledger"
+	"github.com/blinklabs-io/gouroboros/protocol"
 	"github.com/blinklabs-io/gouroboros/protocol/chainsync"
 	pcommon "github.com/blinklabs-io/gouroboros/protocol/common"
 	rt "github.com/blinklabs-io/gouroboros/verifsimrt"
@@ -97,9 +98,33 @@ func chainSyncSetup(s *rt.Sim, tier string) func() {
 		var cConn, sConn *ouroboros.Connection
 		// server application
 		next := 0
-		sendOp := func(srv *chainsync.Server, op csOp) error {
+		// knob (own stream): a node-to-node server application that prepares its roll-forward
+		// messages ahead with the exported constructor (this one and the next two) and hands them
+		// to the protocol later
+		ahead := ntn && rt.Choose("cfg.a", 3) == 2
+		prebuilt := map[int]protocol.Message{}
+		build := func(j int) {
+			if j >= len(hist) || hist[j].kind != "fwd" || prebuilt[j] != nil {
+				return
+			}
+			if eraId, ok := ledger.BlockToBlockHeaderTypeMap[hist[j].blk.Type]; ok {
+				if m, err := chainsync.NewMsgRollForwardNtN(eraId, 0, hist[j].blk.Data, hist[j].tip); err == nil {
+					prebuilt[j] = m
+				}
+			}
+		}
+		sendOp := func(srv *chainsync.Server, op csOp, idx int) error {
 			if op.kind == "back" {
 				return srv.RollBackward(op.point, op.tip)
+			}
+			if ahead {
+				build(idx)
+				build(idx + 1)
+				build(idx + 2)
+				if m := prebuilt[idx]; m != nil {
+					rt.Hit("cs.message-prepared-ahead")
+					return srv.ProtocolInstance().SendMessage(m)
+				}
 			}
 			return srv.RollForward(op.blk.Type, op.blk.Data, op.tip)
 		}
@@ -110,6 +135,7 @@ func chainSyncSetup(s *rt.Sim, tier string) func() {
 				return ctx.Server.AwaitReply()
 			}
 			op := hist[next]
+			opIdx := next
 			next++
 			if op.await {
 				if err := ctx.Server.AwaitReply(); err != nil {
@@ -119,11 +145,11 @@ func chainSyncSetup(s *rt.Sim, tier string) func() {
 				srv := ctx.Server
 				go func() {
 					sleep(d)
-					_ = sendOp(srv, op)
+					_ = sendOp(srv, op, opIdx)
 				}()
 				return nil
 			}
-			return sendOp(ctx.Server, op)
+			return sendOp(ctx.Server, op, opIdx)
 		}
 		findIntersect := func(ctx chainsync.CallbackContext, pts []pcommon.Point) (pcommon.Point, chainsync.Tip, error) {
 			return pts[0], sampleTip(0), nil
